@@ -12,6 +12,7 @@ require (
 	github.com/ipld/go-ipld-prime v0.21.0
 	github.com/multiformats/go-multihash v0.2.3
 	github.com/spaolacci/murmur3 v1.1.0
+	google.golang.org/protobuf v1.34.2
 )
 
 require (
@@ -48,7 +49,6 @@ require (
 	golang.org/x/crypto v0.25.0 // indirect
 	golang.org/x/sync v0.7.0 // indirect
 	golang.org/x/sys v0.22.0 // indirect
-	google.golang.org/protobuf v1.34.2 // indirect
 	lukechampine.com/blake3 v1.3.0 // indirect
 )
 
